@@ -117,6 +117,26 @@ def _verdict(res, u, sub, verdict, model, xs, replay):
         res.unconfirmed.append({"key": key, "what": "model does not reproduce (%.3g)" % mag})
 
 
+@symnp.outside_session
+def replay_ph2ph(case, x, tgt):
+    import phonopy.harmonic.force_constants as fcm
+    from phonopy.harmonic.dynamical_matrix import get_dynamical_matrix
+    X = np.array(x, dtype="double").reshape(case.n_p, case.n_s, 3, 3)
+    F = fcm.compact_fc_to_full_fc(case.prim, X)
+    F = np.array((F + np.transpose(F, (1, 0, 3, 2))) * 0.5, dtype="double", order="C")
+    ph = geometries.phonopy_obj(case.gid, case.sid)
+    ph.force_constants = F
+    ph2 = ph.ph2ph(np.array(tgt).tolist())
+    comm = case.commensurate_points()
+    worst = 0.0
+    dm1 = ph.dynamical_matrix; dm2 = ph2.dynamical_matrix
+    for q in comm:
+        dm1.run(q); dm2.run(q)
+        worst = max(worst, float(np.abs(dm1.dynamical_matrix - dm2.dynamical_matrix).max()))
+    return worst > 1e-8, worst
+
+
+@symnp.outside_session
 def replay_rt(case, x, full, lang, omp):
     import phonopy.harmonic.force_constants as fcm
     from phonopy.harmonic.dynmat_to_fc import DynmatToForceConstants
@@ -206,7 +226,10 @@ def ph2ph_unit(case, br, res, u):
         v, model, idx = assert_equal(res, "ph2ph D preserved at q=%s" % comm[qi].tolist(), cflat(D2[qi]), cflat(D1[qi]), A, tol=TOL)
         key = "%s:ph2ph:q%d:%s/%s" % (PID, qi, u[1], u[2])
         if v == "sat":
-            res.unconfirmed.append({"key": key, "what": "ph2ph changes D at a source-commensurate point (no concrete replay implemented)"})
+            x = harness.model_floats(model, xs)
+            ok, mag = replay_ph2ph(case, x, tgt)
+            (res.violations if ok else res.unconfirmed).append({"key": key, "what": "Phonopy.ph2ph to supercell %s changes the dynamical matrix at a q-point commensurate with the source supercell by %.3g" % (tgt.tolist(), mag), "replay": {"unit": list(u), "x": x.tolist()}})
+            break
         elif v == "unknown":
             res.notes.append("inconclusive " + key)
     v2, _, _ = assert_equal(Result("t"), "twin", cflat(D2[0]), cflat(D1[0] * 1.01), A, tol=TOL)
